@@ -176,3 +176,97 @@ package leveldb
 //@   safety on
 //@   requires len(key) >= 8
 //@   ensures [strip] fadded(key[:len(key)-8])
+
+// ---------------------------------------------------------------------------
+// Protocol ghost state (DESIGN.md 3.3). The write lock is a capacity-1 channel: send = acquire,
+// receive = release. Receiving `false` from writeMergedC hands the lock to the receiver, sending `false`
+// gives it away.
+
+//@ lock DB.writeLockC
+//@ handoff DB.writeMergedC DB.writeLockC
+
+// Only non-nil errors are ever sent on the persistent-error channel (compactionError sends `err` only in its
+// haserr/hasperr states); assumed, listed in the evidence.
+//@ chanvalue DB.compPerErrC nonnil
+
+// Functions that are not lock-balanced, with what they do instead (C09 sweep checks everything else balanced).
+// Clauses labelled lk-... are kept by the sweep because the lock clauses depend on them.
+
+// Lock invariant of the write lock: while it is held, the effective memdb exists (db.mem is cleared only by
+// Close, after Close has taken the write lock for good). Assumed; listed in the evidence.
+//@ func (*DB).getEffectiveMem
+//@   props C09
+//@   assumes [lk-lockinv] held(db.writeLockC) >= 1 ==> result != nil
+
+//@ func (*DB).unlockWrite
+//@   props C09 C10
+//@   requires held(db.writeLockC) >= 1
+//@   touches held(db.writeLockC)
+//@   ensures [released-or-handed-over] held(db.writeLockC) == old(held(db.writeLockC)) - 1
+
+//@ func (*DB).writeLocked
+//@   props C09 C10
+//@   requires held(db.writeLockC) >= 1
+//@   touches held(db.writeLockC)
+//@   ensures [released-on-every-path] held(db.writeLockC) == old(held(db.writeLockC)) - 1
+
+//@ func (*Transaction).setDone
+//@   props C09 C11
+//@   requires held(tr.db.writeLockC) >= 1
+//@   touches held(tr.db.writeLockC)
+//@   ensures held(tr.db.writeLockC) == old(held(tr.db.writeLockC)) - 1
+//@   ensures [lk-closed] tr.closed
+
+//@ func (*DB).OpenTransaction
+//@   props C09 C11
+//@   touches held(db.writeLockC)
+//@   ensures [held-by-transaction] ret1 == nil ==> held(db.writeLockC) == old(held(db.writeLockC)) + 1
+//@   ensures [released-on-error] ret1 != nil ==> held(db.writeLockC) == old(held(db.writeLockC))
+//@   ensures [lk-open] ret1 == nil ==> (ret0 != nil && !ret0.closed && ret0.db == db)
+
+//@ func (*Transaction).Write
+//@   props C09 C11
+//@   ensures [lk-closed-unchanged] tr.closed == old(tr.closed) && tr.db == old(tr.db)
+
+//@ func (*Transaction).Commit
+//@   props C09 C11
+//@   requires !tr.closed ==> held(tr.db.writeLockC) >= 1
+//@   touches held(tr.db.writeLockC)
+//@   ensures [done-releases] result == nil ==> held(tr.db.writeLockC) == old(held(tr.db.writeLockC)) - 1
+//@   ensures [error-keeps-open] result != nil ==> held(tr.db.writeLockC) == old(held(tr.db.writeLockC))
+//@   ensures [lk-closed] result != nil ==> tr.closed == old(tr.closed)
+
+//@ func (*Transaction).Discard
+//@   props C09 C11
+//@   requires !tr.closed ==> held(tr.db.writeLockC) >= 1
+//@   touches held(tr.db.writeLockC)
+//@   ensures held(tr.db.writeLockC) == old(held(tr.db.writeLockC)) - (old(tr.closed) ? 0 : 1)
+
+// Close takes the write lock for good (the closed DB owns it); SetReadOnly and the persistent-error state of
+// compactionError park it in db.compWriteLocking.
+//@ func (*DB).Close
+//@   props C09 C18
+//@   touches held(db.writeLockC)
+//@   at before call (*Transaction).Discard#1
+//@     assume [lk-token-with-transaction] (db.tr != nil && !db.tr.closed) ==> (db.tr.db == db && held(db.writeLockC) >= 1)
+//@   ensures [kept-by-closed-db] held(db.writeLockC) >= old(held(db.writeLockC))
+
+//@ func (*DB).SetReadOnly
+//@   props C09 C18
+//@   touches held(db.writeLockC)
+//@   ensures [parked] result == nil ==> held(db.writeLockC) == old(held(db.writeLockC)) + 1
+
+// compactionError is the background goroutine that owns the error state; in its persistent-error state it
+// takes the write lock and parks it in db.compWriteLocking until close.
+//@ func (*DB).compactionError
+//@   props C09
+//@   requires [lk-parked] db.compWriteLocking ==> held(db.writeLockC) >= 1
+//@   touches held(db.writeLockC)
+//@   loop @noerr
+//@     invariant [lk-parked] db.compWriteLocking ==> held(db.writeLockC) >= 1
+//@   loop 1
+//@     invariant [lk-parked] db.compWriteLocking ==> held(db.writeLockC) >= 1
+//@   loop 2
+//@     invariant [lk-parked] db.compWriteLocking ==> held(db.writeLockC) >= 1
+//@   loop 3
+//@     invariant [lk-parked] db.compWriteLocking ==> held(db.writeLockC) >= 1
